@@ -213,7 +213,15 @@ func (g *c08Gen) sweep(w *World, b int) []Step {
 					st.Fault = &FaultDirective{Site: "db.Load", Index: 0, Kind: []string{"err", "notfound"}[g.r.Intn(2)]}
 				}
 				if g.r.Chance(1, 4) {
-					st.Str["method"] = []string{"HEAD", "POST", "PUT", "DELETE"}[g.r.Intn(4)]
+					st.Str["method"] = []string{"HEAD", "POST", "PUT", "DELETE", "OPTIONS", "OPTIONS"}[g.r.Intn(6)]
+				}
+				if g.r.Chance(1, 5) {
+					// a header the guard has no business acting on (a CORS
+					// preflight, a prefetch, a method override, ...)
+					st.Str["hdr"] = oddHeaders[g.r.Intn(len(oddHeaders))]
+					if st.Str["method"] == "OPTIONS" {
+						st.Str["hdr"] = "Access-Control-Request-Method: POST"
+					}
 				}
 				out = append(out, st)
 				if g.r.Chance(1, 3) {
